@@ -142,6 +142,14 @@ def illegal_insertions(chain, sig):
                     msgs.append(name + r" for forbidden call does not make sense")
             if msgs:
                 yield ins(pos, "T0"), "|".join(msgs), "TIMES(0) with actions"
+            # a second limit after / before a TIMES(0) is still a second limit
+            two = lambda a, b: chain[:pos] + (a, b) + chain[pos:]
+            only_t = r"Only one TIMES call limit is allowed"
+            only_rt = r"Only one RT_TIMES call limit is allowed"
+            if not msgs:
+                yield two("T0", "T13"), only_t, "TIMES after TIMES(0)"
+                yield two("T0", "RT"), only_rt, "RT_TIMES after TIMES(0)"
+                yield two("T13", "T0"), only_t, "TIMES(0) after TIMES"
         # sequences
         if "Q" in has:
             yield ins(pos, "Q"), r"Multiple IN_SEQUENCE does not make sense", "second IN_SEQUENCE"
@@ -161,6 +169,12 @@ def forbid_negatives(sig):
         for pre in ((), ("W",)):
             out.append(("FORBID_CALL", pre + (tok,), name + r" for forbidden call does not make sense",
                         name + " on FORBID_CALL"))
+    for pre in ((), ("W",)):
+        out.append(("FORBID_CALL", pre + ("T",), r"Only one TIMES call limit is allowed", "TIMES on FORBID_CALL"))
+        out.append(("FORBID_CALL", pre + ("TAL",), r"Only one TIMES call limit is allowed", "TIMES(AT_LEAST) on FORBID_CALL"))
+        out.append(("FORBID_CALL", pre + ("RT",), r"Only one RT_TIMES call limit is allowed", "RT_TIMES on FORBID_CALL"))
+        out.append(("ALLOW_CALL", pre + ("T",) + (() if sig == "V" else ("RET",)),
+                    r"Only one TIMES call limit is allowed", "TIMES on ALLOW_CALL"))
     return out
 
 
